@@ -196,6 +196,29 @@ fn tok_str2() {
     feed(serde_json::Value::String(s));
 }
 
+#[kani::proof]
+#[kani::unwind(16)]
+#[kani::stub(alloc::fmt::format, stub_format)]
+fn tok_str3() {
+    let b = [ascii(kani::any()), ascii(kani::any()), ascii(kani::any())];
+    let s = unsafe { String::from_utf8_unchecked(b.to_vec()) };
+    kani::cover!(b[0] == b'o' && b[1] == b'u' && b[2] == b't', "must: control command out");
+    kani::cover!(b[0] == b'M' && b[1] == b'I' && b[2] == b'N', "must: native MIN");
+    kani::cover!(b[0] == b'^', "must: string value marker");
+    feed(serde_json::Value::String(s));
+}
+
+#[kani::proof]
+#[kani::unwind(16)]
+#[kani::stub(alloc::fmt::format, stub_format)]
+fn tok_str4() {
+    let b = [ascii(kani::any()), ascii(kani::any()), ascii(kani::any()), ascii(kani::any())];
+    let s = unsafe { String::from_utf8_unchecked(b.to_vec()) };
+    kani::cover!(b[0] == b'v' && b[1] == b'o' && b[2] == b'i' && b[3] == b'd', "must: void");
+    kani::cover!(b[0] == b'd' && b[1] == b'o' && b[2] == b'n' && b[3] == b'e', "must: control command done");
+    feed(serde_json::Value::String(s));
+}
+
 // arrays as containers: [] (no terminator), [null], [n, null]
 macro_rules! tokarr {
     ($name:ident, $v:expr) => {
